@@ -206,15 +206,29 @@ class Tables:
                 continue
             for kd in ks:
                 self.eval_fn_of_kind[kd] = target.qname
-            tctx = Pos(target)
-            for e, anc in hir_walk(target.hir['body']):
-                v = None
-                if e['k'] == 'call' and e['f'].get('res') == 'def' and e['f']['def'].startswith('eval::Expr::') and 'Ctor' in e['f'].get('dk', ''):
-                    v = variant_of(e['f'])
-                if v:
-                    g = self.gk(tctx.guards(anc))
-                    for kd in ks:
-                        rows.append((kd, g, v, target.qname))
+            dispatch_targets = {callee_id(e) for _, th, _ in self.dispatch(fn) for e, _ in hir_walk(th) if e['k'] == 'call' and (callee_def(e) or '').startswith('eval::eval_')}
+
+            def collect(f2, outer, depth):
+                tctx = Pos(f2)
+                for e, anc in hir_walk(f2.hir['body']):
+                    v = None
+                    if e['k'] == 'call' and e['f'].get('res') == 'def' and e['f']['def'].startswith('eval::Expr::') and 'Ctor' in e['f'].get('dk', ''):
+                        v = variant_of(e['f'])
+                    if v:
+                        g = dict(outer)
+                        g.update(dict(self.gk(tctx.guards(anc))))
+                        for kd in ks:
+                            rows.append((kd, tuple(sorted(g.items())), v, target.qname))
+                    # a private helper of the module the function is split into (`eval_range_operation`): its
+                    # constructors count, under the guards of the call site
+                    if depth < 2 and e['k'] == 'call' and (callee_def(e) or '').startswith('eval::') and callee_id(e) not in dispatch_targets:
+                        h = self.f.fns.get(callee_id(e))
+                        nm = (callee_def(e) or '').split('::')[-1]
+                        if h is not None and h.hir and h.id != f2.id and h.id != fn.id and not nm.startswith('cast_') and h.d.get('vis') != 'Public' and '::' not in (callee_def(e) or '')[len('eval::'):]:
+                            g = dict(outer)
+                            g.update(dict(self.gk(tctx.guards(anc))))
+                            collect(h, g, depth + 1)
+            collect(target, {}, 0)
         return rows
 
     def norm_guard(self, g):
